@@ -69,7 +69,7 @@ def case_get_closest(draw):
         else:
             i = draw(st.integers(0, len(g) - 1))
             vals.append(float(np.nextafter(g[i], draw(st.sampled_from([-np.inf, np.inf])))))
-    return {"kind": kind, "grid": g, "values": vals}
+    return {"kind": kind, "grid": g, "values": vals, "shape": draw(st.sampled_from(["1d", "1d", "2d", "3d"]))}
 
 
 def _oracle_rows(sub, ctx, case, grid, values, out):
@@ -95,9 +95,18 @@ def check_get_closest(ctx: Ctx, case):
     if not (np.all(np.isfinite(grid)) and np.all(np.isfinite(values))):
         ctx.exclude("non-finite grid or value (outside the property's domain)")
         return
+    shp = case.get("shape", "1d")
+    if shp != "1d" and len(values) >= 2:   # the same values as an array of another shape: snapping is element-wise
+        pad = (-len(values)) % (2 if shp == "2d" else 4)
+        values = np.concatenate((values, values[:pad]))
+        values = values.reshape((2, -1) if shp == "2d" else (2, 2, -1))
     g0, v0 = grid.copy(), values.copy()
     with guard(ctx, "C17/exception", sub, case):
         out = get_closest(grid, values)
+    if out.shape != values.shape:
+        ctx.fail("C17/shape", f"shape {out.shape} != {values.shape}", sub, case)
+        return
+    out, values, v0 = out.reshape(-1), values.reshape(-1), v0.reshape(-1)
     special = any(v < grid[0] or v > grid[-1] or v == grid[0] or v == grid[-1] for v in values) or any(
         (v == (grid[i] + grid[i + 1]) / 2) for v in values for i in range(len(grid) - 1) if len(grid) < 40)
     ctx.count(sub, case, bool(special), [case.get("kind", "?")])
